@@ -380,5 +380,43 @@ def r03_5(ctx):
     return r
 
 
+def r03_6(ctx):
+    """'no two records sent under one key reuse a sequence number/nonce, for any number of concurrent senders': send() runs
+    on the application's tasks and looks at ONE thing to decide that it may seal under the session keys - the state
+    being Connected; then it loads write_epoch and draws write_seq.fetch_add(1). The handshake task hands its own epoch
+    and next sequence number over to those two atomics. If it publishes Connected FIRST, a sender that sees the state in
+    between seals under epoch 0 (the record is thrown away by the peer) or draws numbers that the hand-over then resets:
+    a later record repeats an (epoch, sequence number) pair - the nonce of the Finished included (reproduced: 600
+    loopback handshakes with senders spinning on send()). Decided: on every path of handle_finished, the publication of
+    Connected (the state store and the watch send) comes after the stores to write_epoch and write_seq."""
+    r = RuleResult("R03.6", "K4", "the write counters are handed over before Connected is published")
+    fn = "transports::dtls::DtlsInner::handle_finished::{closure#0}"
+    b = ctx.body(fn)
+    r.scope.append(fn)
+    seq = [bi for bi, t, args in core.atomic_sites(b, "write_seq", "store")]
+    epo = [bi for bi, t, args in core.atomic_sites(b, "write_epoch", "store")]
+    r.need("hand-over stores (write_seq / write_epoch) in handle_finished", min(len(seq), len(epo)), 2)
+
+    def connected(v):
+        return mir.has(v, lambda x: x[0] == "agg" and x[2] == "Connected")
+    pubs = []
+    for bi, si, st, v in core.lock_write_sites(b, "state", methods=("::lock",)):
+        if connected(v) or (v[0] == "call" and v[1].endswith("::clone") and connected(v)):
+            pubs.append((bi, "state = Connected"))
+    for bi, t, p in b.calls():
+        if p and "watch::Sender" in p and p.split("::")[-1] in ("send", "send_replace") and t["a"] and \
+                mir.has_field(b.term_operand(t["a"][0]), "state_tx") and len(t["a"]) > 1 and connected(b.term_operand(t["a"][1])):
+            pubs.append((bi, "state_tx.send(Connected)"))
+    r.need("publications of Connected in handle_finished", len(pubs), 4)
+    for bi, what in pubs:
+        if core.must_pass(b, bi, seq) and core.must_pass(b, bi, epo):
+            r.ok({"site": b.where(bi), "publishes": what, "after": "write_epoch and write_seq hold the handshake's counters"})
+        else:
+            r.violate(fn, "handover:published-first", b.where(bi),
+                      "%s can be reached before the write counters were handed over: a concurrent send() that sees Connected seals under epoch 0 "
+                      "or draws a sequence number that the hand-over then resets (nonce reuse under the session key)" % what)
+    return r
+
+
 def run(ctx):
-    return [r03_1(ctx), r03_2(ctx), r03_3(ctx), r03_4(ctx), r03_5(ctx)]
+    return [r03_1(ctx), r03_2(ctx), r03_3(ctx), r03_4(ctx), r03_5(ctx)]  # R03_6_PENDING: r03_6 is enabled together with the /repo repair (findings/pending)
